@@ -203,6 +203,34 @@ Fixpoint merge_files_from (out : al string string) (ins : list (list fentry)) : 
   end.
 Definition merge_files (ins : list (list fentry)) : option (al string string) := merge_files_from [] ins.
 
+(* ---- the same transfer, seen on the destination directory.  [fs] is the feature tree of the destination
+        BEFORE the merge (left there by an earlier merge, an interrupted copy, ...); [seen] the names merged so
+        far (the merged Keypoints / Descriptors / GlobalFeatures / Matches set, which starts empty whatever the
+        destination holds).  shutil.copy and ndarray.tofile both replace an existing file: [insert] overwrites. *)
+Fixpoint merge_input_onto (seen : list string) (fs : al string string) (es : list fentry)
+  : option (list string * al string string) :=
+  match es with
+  | [] => Some (seen, fs)
+  | e :: es' =>
+      if memb (f_path e) seen then merge_input_onto seen fs es'
+      else match transfer e with
+           | Some b => merge_input_onto (f_path e :: seen) (insert (f_path e) b fs) es'
+           | None => None
+           end
+  end.
+Fixpoint merge_onto_from (seen : list string) (fs : al string string) (ins : list (list fentry))
+  : option (list string * al string string) :=
+  match ins with
+  | [] => Some (seen, fs)
+  | es :: rest =>
+      match merge_input_onto seen fs es with
+      | Some (seen', fs') => merge_onto_from seen' fs' rest
+      | None => None
+      end
+  end.
+Definition merge_files_onto (dest : al string string) (ins : list (list fentry)) : option (al string string) :=
+  match merge_onto_from [] dest ins with Some (_, fs) => Some fs | None => None end.
+
 (* ---- correspondence *)
 Fixpoint remove_one {A} `{EqDec A} (x : A) (l : list A) : option (list A) :=
   match l with
@@ -215,6 +243,9 @@ Fixpoint perm_eqb {A} `{EqDec A} (l m : list A) : bool :=
   | [] => isnil m
   | x :: l' => match remove_one x m with Some m' => perm_eqb l' m' | None => false end
   end.
+
+Fixpoint nodupb (l : list string) : bool :=
+  match l with [] => true | x :: l' => negb (memb x l') && nodupb l' end.
 
 Definition cloud_eqb (c : cloud) (w : Z) (rs : list row) : bool := (width c =? w) && eqb (rows c) rs.
 
@@ -265,12 +296,24 @@ Definition check_tool (skip_points skip_obs : bool) (ins : list input) (files : 
   | _, _, Some _ => false
   end.
 
+(* a merge of feature / match files (library functions) into a destination that already holds [dest];
+   observed: the whole feature tree of the destination afterwards, or None = it raised *)
+Definition check_remerge (dest : list (string * string)) (files : list (list fentry))
+           (o : option (list (string * string))) : bool :=
+  match merge_files_onto dest files, o with
+  | Some fs, Some seen => files_agree fs seen && Nat.eqb (List.length fs) (List.length seen)
+  | None, None => true
+  | _, _ => false
+  end.
+
 Inductive case :=
 | CaseLib (ins : list input) (o_po : obs_po) (o_p : obs_p)
-| CaseTool (skip_points skip_obs : bool) (ins : list input) (files : list (list fentry)) (o : obs_tool).
+| CaseTool (skip_points skip_obs : bool) (ins : list input) (files : list (list fentry)) (o : obs_tool)
+| CaseRemerge (dest : list (string * string)) (files : list (list fentry)) (o : option (list (string * string))).
 
 Definition check_case (c : case) : bool :=
   match c with
   | CaseLib ins o1 o2 => check_po ins o1 && check_p ins o2
   | CaseTool sp so ins files o => check_tool sp so ins files o
+  | CaseRemerge dest files o => nodupb (map fst dest) && check_remerge dest files o
   end.
